@@ -410,20 +410,20 @@ theorem C03_model_step_eq (st : Consensus.State) (pc : Nat) (hpc : pc < cfg.scri
         Agree (pc + size) (evalInstruction (stdEnv chk) cfg (absS st pc)) (specStep chk cfg st op data (pc + size)) := by
   first | exact C03M_step_eq .. | (apply C03M_step_eq <;> assumption)
 
-/-- `C03M_step_eq` with the deletion hypothesis spelt out: the script code after the last code separator decodes and the
-stack items are within 520 bytes -/
-theorem C03_model_step_eq_walkable (st : Consensus.State) (pc : Nat) (hpc : pc < cfg.script.length)
+/-- `C03M_step_eq` with the deletion hypothesis discharged: all it takes is that the stack items are within 520 bytes
+(any script code: `C03M_sigdel_eq`) -/
+theorem C03_model_step_eq_items (st : Consensus.State) (pc : Nat) (hpc : pc < cfg.script.length)
     (hw : hasFlag cfg.flags Gen.VM.VERIFY_MINIMALIF = true → cfg.witness = true)
     (hwp : hasFlag cfg.flags Gen.VM.VERIFY_WITNESS_PUBKEYTYPE = true → cfg.witness = true) (hchk : ChkWF chk)
-    (hwk : Walkable (cfg.script.drop st.codeSep)) (hok : okL st.stack) :
+    (hok : okL st.stack) :
     match getScriptOp (cfg.script.drop pc) with
     | none => (evalInstruction (stdEnv chk) cfg (absS st pc)).toOption = none
     | some (op, data, _, size) =>
         Agree (pc + size) (evalInstruction (stdEnv chk) cfg (absS st pc)) (specStep chk cfg st op data (pc + size)) := by
-  first | exact C03M_step_eq_walkable .. | (apply C03M_step_eq_walkable <;> assumption)
+  first | exact C03M_step_eq_items .. | (apply C03M_step_eq_items <;> assumption)
 
 /-- C03.eval_eq for arbitrary initial stacks, under the hypothesis that signature deletion is shared along the run
-(`SigDelShared`; see `C03M_sigdel_walkable` for when it holds): same verdict, and on success the same final stack -/
+(`SigDelShared`; by `C03M_sigdel_eq` it holds whenever the initial items are within 520 bytes, which is `C03M_eval_eq`): same verdict, and on success the same final stack -/
 theorem C03_model_eval_eq_shared (hw : hasFlag cfg.flags Gen.VM.VERIFY_MINIMALIF = true → cfg.witness = true)
     (hwp : hasFlag cfg.flags Gen.VM.VERIFY_WITNESS_PUBKEYTYPE = true → cfg.witness = true) (hchk : ChkWF chk)
     (stack : List Bytes) (hdel : SigDelShared chk cfg stack) :
@@ -433,15 +433,14 @@ theorem C03_model_eval_eq_shared (hw : hasFlag cfg.flags Gen.VM.VERIFY_MINIMALIF
   first | exact C03M_eval_eq_shared .. | (apply C03M_eval_eq_shared <;> assumption)
 
 /-- **signature deletion agrees**: pycoin's `_delete_signature` (instruction walk dropping the instructions equal to the
-canonical push of the signature; signatures taken bottom-most first) and Core's `FindAndDelete(scriptCode, CScript() << sig)`
-(top-most first) give the same script code for every signature list, whenever the instructions of the script code all
-decode and the signatures are at most 520 bytes long; and along Core's run of such a script on items within 520 bytes
-this is always so (items never exceed 520 bytes: `specStep_items`; the last code separator is an instruction boundary) -/
-theorem C03_model_sigdel_walkable :
-    (∀ (st : Consensus.State) (sigs : List Bytes), Walkable (cfg.script.drop st.codeSep) → (∀ s ∈ sigs, s.length ≤ 520) →
-      DelAgrees cfg st sigs) ∧
-    (∀ stack0, okL stack0 → Walkable cfg.script → SigDelShared chk cfg stack0) := by
-  first | exact C03M_sigdel_walkable .. | (apply C03M_sigdel_walkable <;> assumption)
+canonical push of the signature and keeping an undecodable tail verbatim — since the repair a9b3b8d; signatures taken
+bottom-most first) and Core's `FindAndDelete(scriptCode, CScript() << sig)` (top-most first) give the same script code for
+**every** script code and every list of signatures of at most 520 bytes; and along Core's run of any script on items
+within 520 bytes this is always so (items never exceed 520 bytes: `specStep_items`) -/
+theorem C03_model_sigdel_eq :
+    (∀ (st : Consensus.State) (sigs : List Bytes), (∀ s ∈ sigs, s.length ≤ 520) → DelAgrees cfg st sigs) ∧
+    (∀ stack0, okL stack0 → SigDelShared chk cfg stack0) := by
+  first | exact C03M_sigdel_eq .. | (apply C03M_sigdel_eq <;> assumption)
 
 /-- a script with an undecodable instruction fails its evaluation on both sides (BAD_OPCODE at the latest when the loop
 gets there, even in a dead branch), whatever happened before — no assumption on signature deletion -/
